@@ -108,6 +108,7 @@ func vhIsExternal(err error) bool {
 }
 
 //vh:prop C15 C03
+//vh:stubs codec
 //vh:param ids 3 4
 //vh:param maxworkers 1 2
 func VH_C15_StorageStep() {
